@@ -1351,6 +1351,7 @@ impl BufferParser for Parser {
                         } else {
                             1
                         };
+                        let num = min(num, buf.terminal_state.get_width());
                         (0..num).for_each(|_| caret.set_x_position(buf.terminal_state.next_tab_stop(caret.get_position().x)));
                         buf.terminal_state.limit_caret_pos(buf, caret);
                         return Ok(CallbackAction::Update);
@@ -1369,6 +1370,7 @@ impl BufferParser for Parser {
                         } else {
                             1
                         };
+                        let num = min(num, buf.terminal_state.get_width());
                         (0..num).for_each(|_| caret.set_x_position(buf.terminal_state.prev_tab_stop(caret.get_position().x)));
                         return Ok(CallbackAction::Update);
                     }
